@@ -11,9 +11,9 @@ for pid in sorted(ready):
         parts.append("**%s** — integrated; see checks/%s.py (META) — notes missing.\n" % (pid, pid.lower()))
         continue
     t = open(p).read()
-    m = re.search(r"^#+\s*\(?9\)?[.)]?\s.*?$", t, re.M)
+    m = re.search(r"^#+.*[Pp]roposed (?:text|DESIGN).*$", t, re.M)
     if not m:
-        m = re.search(r"^#+.*[Pp]roposed text.*$", t, re.M)
+        m = re.search(r"^#+\s*\(?9\)?[.)]?\s.*?$", t, re.M)
     if not m:
         parts.append("**%s** — see notes/%s.md.\n" % (pid, pid))
         continue
